@@ -235,9 +235,55 @@ class Census:
                         refuted = True
                         break
             if not refuted:
+                # (b) path-sensitive: values merged at a join (two `matches!` of the same value, ...) are exact along each acyclic path
+                if not an.loops:
+                    ps = an.paths()
+                    if ps is not None and cs.block not in getattr(an, "_path_blocks", {cs.block}):
+                        return "asserted condition proven: no acyclic path of the function reaches the failure arm (values evaluated per path)"
+                # (c) a private function's assertion about its parameters: shown at every call site (and, where a caller only
+                #     forwards its own parameters, at that caller's call sites)
+                conds = [(f[1], f[0] == "true") for f in after - before if f[0] in ("true", "false") and isinstance(f[1], Term) and f[1].op in ("bin", "un")]
+                if len(conds) >= 1 and all(self.refuted_at_callers(an.fn, c_, tv_) for c_, tv_ in conds[:1]):
+                    n += 1
+                    continue
                 return None
             n += 1
         return "asserted condition proven: each of the %d edges into the failure arm contradicts the order facts established before it" % n
+
+    def refuted_at_callers(self, fn, cond, truth, depth=0):
+        """the boolean term `cond` over fn's parameters cannot have the value `truth` at any call site of the (private) function fn"""
+        from .engine import State
+        F = self.F
+        if fn.get("reachable_pub") or depth > 2 or fn.get("kind") == "Closure":
+            return False
+        prog = program(F)
+        if not prog._closed(cond):
+            return False
+        n_sites = 0
+        for caller in F.all_fns():
+            if not any(blk["term"]["k"] == "call" and "indirect" not in blk["term"]["callee"]
+                       and (blk["term"]["callee"].get("resolved_id") or blk["term"]["callee"].get("id")) == fn["id"] for blk in caller["body"]["blocks"]):
+                continue
+            can = analyze_fn(F, caller)
+            cpv = Prover(can)
+            for c in can.calls():
+                if (c.callee.get("resolved_id") or c.callee.get("id")) != fn["id"] or c.block not in can.entry:
+                    continue
+                n_sites += 1
+                stc = State(can.exit_env.get(c.block, {}), c.facts)
+                try:
+                    c2 = prog.subst(can, stc, cond, c.arg_values(), prog.gmap(fn, c.callee))
+                except KeyError:
+                    c2 = None
+                if c2 is None:
+                    return False
+                tv = cpv.decide(c2, c.facts)
+                if tv is not None and tv != truth:
+                    continue
+                if tv is None and self.refuted_at_callers(caller, c2, truth, depth + 1):
+                    continue
+                return False
+        return n_sites > 0
 
     def discharge_at_call_sites(self, cfn, a):
         from .engine import State
